@@ -215,7 +215,14 @@ def pending_count_updates(b):
 def rule_cg_ack1(ctx, R):
     """the acknowledged counter is incremented only on the Some edge of remove_entry"""
     b = ctx.prog.need(CG + "acknowledge")
-    rem = [i for i, t in b.calls() if callee(t) == PEL + "remove_entry"]
+    # single-entry removals: functions of the pending list that take an entry out of the by-id
+    # index and say whether there was one (Option result)
+    removers = {PEL + "remove_entry"}
+    for fn2, b2 in ctx.prog.bodies.items():
+        if fn2.startswith(PEL) and b2.kind != "Closure" and b2.locals[0].startswith("std::option::Option<") and \
+           any(re.search(r"BTreeMap::<storage::stream::StreamId, storage::consumer_groups::PendingEntry>::remove(::<.*>)?$", t["f"] or "") for _, _, t in shared.deep_calls(ctx, b2)):
+            removers.add(fn2)
+    rem = [i for i, t in b.calls() if callee(t) in removers]
     # `ids.iter().filter_map(|id| pending.remove_entry(id))`: the removal sits in a closure whose
     # result is the Option itself, and the adaptor hands only the Some payloads to the loop body
     lazy = []
@@ -224,7 +231,7 @@ def rule_cg_ack1(ctx, R):
             cb = ctx.prog.bodies.get(t["clos"][-1])
             if cb is not None:
                 for j, tj in cb.calls():
-                    if callee(tj) == PEL + "remove_entry":
+                    if callee(tj) in removers:
                         P = prov.origins(cb, 0)
                         if any(r[0] == "call" and r[2] == j for r in P.roots):
                             lazy.append(i)
@@ -241,6 +248,9 @@ def rule_cg_ack1(ctx, R):
                 la = op_local(st["r"]["a"])
                 if la is not None and la in b.names and b.locals[la] == "usize":
                     incs.append((i, la))
+    if not rem and not lazy and incs:
+        R.inst(b.fn, "ack-count", {"increments": len(incs), "single_entry_removals_with_a_result": 0})
+        R.finding(b.fn, "ack:counted-outside-some-edge", "XACK counts without a removal that says whether the entry was pending (the count is not tied to an entry leaving the pending list: an ID named twice is counted twice)", b.loc(incs[0][0]))
     for r in rem:
         rs = shared.result_switch(b, r)
         if rs is None:
